@@ -62,6 +62,18 @@ class Text:
         raise pyvc.PyvcUnsupported("endswith on this text")
     endswith.pyvc_pure = True
 
+    def __add__(self, o):
+        if isinstance(o, str):
+            return Text(self.length + len(o), z3.BoolVal(o.endswith("\n")) if o else self.ends_nl)
+        if isinstance(o, Text):
+            return Text(self.length + o.length, o.ends_nl)
+        return NotImplemented
+
+    def __radd__(self, o):
+        if isinstance(o, str):
+            return Text(self.length + len(o), self.ends_nl)
+        return NotImplemented
+
     def pyvc_copy(self):
         return self
 
@@ -346,15 +358,28 @@ def task_writeline(prop, seed):
         Declared, NAT, K, INIT, SIZE = z3.Bool("count_declared"), z3.Int("declared_count"), z3.Int("records_written"), z3.Int("first_atom_offset"), z3.Int("line_size")
         out = []
         cex = {"kind": "vc", "fn": "d13:vc", "signature": "writeline"}
-        # (a) initialised writer
-        selfm = SelfW({"parse_atomlist": Stub("parse_atomlist", lambda it, st, a, k, n: Text(LINE)),
+        # (a) initialised writer; the formatter may REFUSE the record (wrong number of fields, non-numeric value, velocities mismatch): free choice
+        Refused = z3.Bool("record_refused_by_the_formatter")
+
+        def parse_contract(it_, st_, a, k, n):
+            it_.may_raise(st_, Refused, "ValueError")
+            return Text(LINE)
+        selfm = SelfW({"parse_atomlist": Stub("parse_atomlist", parse_contract),
                        "_setup_write_file": Stub("_setup_write_file", lambda *a: _unsupported("setup on an initialised writer"))}, figures, dfmt)
         it, ends = _run(tag, "GroFile.writeline", selfm, {"atomlist": tuple(["<field>"] * 7)}, _initialised_ghost(Declared, NAT, K, INIT, SIZE, dfmt, False),
                         [K >= 1, INIT >= 1, SIZE == LINE + 1, LINE >= 1], {}, figures)
         out.append(ob(f"{tag}/vc-generation", "discharged" if ends else "undecided", engine="pyvc", backend="ast", sample={"exit_paths": len(ends)}))
         for ei, e in enumerate(ends):
+            if e.sig == pyvc.RAISE:
+                # a refused record leaves no trace: nothing written, counter / cursor / file length as before (the caller may go on writing)
+                g = e.ghost
+                _post(out, tag, ei, e, [("raises.only_when_the_formatter_refuses_the_record", Refused),
+                                        ("refused_record_leaves_the_writer_unchanged",
+                                         z3.And(z3.BoolVal(not _writes(e)), _key(g["attr:_current_atom"]) == K, g[POS] == INIT + K * SIZE, g[LEN] == g[POS],
+                                                _num_attr(e, "_init_position") == INIT, _num_attr(e, "_atomline_bytesize") == SIZE))], seed, cex)
+                continue
             if e.sig != pyvc.RETURN:
-                out.append(ob(f"{tag}/exit{ei}/no-exception", "undecided", engine="pyvc", reason=f"a path raises {e.val}"))
+                out.append(ob(f"{tag}/exit{ei}/no-exception", "undecided", engine="pyvc", reason=f"a path ends with {e.sig}"))
                 continue
             g = e.ghost
             w = _writes(e)
